@@ -553,13 +553,27 @@ class AckFamily(Family):
                         bump(stats, "exhaustive_small_scope_lists")
                     for i in range(0, len(batch), 200):
                         yield batch[i:i + 200]
+        for kind in ("s", "c"):
+            batch = []
+            for w in (3, 60, 200):
+                for w2 in (1, 3, 59, 60, 61, 500):
+                    for idx in range(0, 4):
+                        for sz in ("20,20,20,20", "1,61,0,130", "59,1,1,59", "70,70,70,70"):
+                            batch.append(f"!ack.run {kind} {w} {sz} {idx}:{w2}")
+                            bump(stats, "reannouncement_sweep")
+            for i in range(0, len(batch), 100):
+                yield batch[i:i + 100]
         n = 150 if tier == "quick" else 1500
         for _ in range(n):
             kind = rng.choice("sc")
             w = rng.choice([1, 2, 7, 100, 1000, 4096, 65536, 2500000, (1 << 31), M32 - 1, rng.range(1, 5000)])
             sizes = [rng.choice([0, 1, w % 7000, (w - 1) % 7000, (w + 1) % 7000, rng.range(0, 3000), rng.range(0, 50)]) for _ in range(rng.range(1, 12))]
             bump(stats, "sampled_window_runs")
-            ops = [f"!ack.run {kind} {w} {','.join(map(str, sizes))} _"]
+            rewin = "_"
+            if rng.chance(1, 2) and len(sizes) >= 2:
+                rewin = f"{rng.below(len(sizes))}:{min(rng.choice([1, 2, 7, 50, 100, 1000, 4096, 2500000, w, w + 1, max(w - 1, 1)]), M32 - 1)}"
+                bump(stats, "oracle_runs_with_reannouncement")
+            ops = [f"!ack.run {kind} {w} {','.join(map(str, sizes))} {rewin}"]
             # the same kind of history through the model: window announcement, then padding in calls
             st = {"now": 0}
             ps = GS.PeerStream(rng, stats)
